@@ -94,6 +94,31 @@ def run(tier):
     with cf.ThreadPoolExecutor(4) as ex:
         for o in ex.map(one, jobs):
             evs += o
+    if thorough:
+        # libFuzzer (clang): coverage-guided byte strings into the parsers for 90 s
+        try:
+            fz = C.compile_cxx('fuzz_parse', [os.path.join(C.HARNESS, 'fuzz_parse.cpp')], compiler='clang++',
+                               flags=['-std=c++17', '-O1', '-g', '-w', '-fsanitize=fuzzer,address,undefined', '-fno-sanitize-recover=all'])
+            fwd = C.work_dir('fuzz')
+            r = subprocess.run([fz, '-max_total_time=90', '-max_len=64', f'-seed={C.SEED % 100000}', '-print_final_stats=1', f'-artifact_prefix={fwd}/'], cwd=fwd,
+                               stdout=subprocess.PIPE, stderr=subprocess.PIPE, timeout=600, env=dict(os.environ, **ENV))
+            err = r.stderr.decode(errors='replace')
+            m = re.search(r'stat::number_of_executed_units:\s*(\d+)', err)
+            if r.returncode != 0:
+                evs.append({'e': 'Fault', 'harness': 'libFuzzer parsers', 'kind': classify(r.returncode, err), 'detail': err[-600:].encode('ascii', 'replace').decode()})
+            else:
+                evs.append({'e': 'HarnessRun', 'harness': 'libFuzzer parsers', 'events': int(m.group(1)) if m else 0})
+        except C.ToolError as e:
+            chk.note_inconclusive('libFuzzer target did not build: ' + str(e)[-200:])
+        # valgrind memcheck on unsanitized -O0 builds at small sample size: reads of uninitialised values
+        for name, srcf, libs, argv in (('shapes', 'shapes.cpp', ['-lquadmath'], ['exact', '1', '50']), ('parsefuzz', 'parsefuzz.cpp', [], ['1', '200']),
+                                       ('dims_box', 'dims_box.cpp', [], ['1', '1', '50']), ('models', 'models.cpp', ['-lquadmath'], ['exact', '1', '1'])):
+            exe = C.compile_cxx(name + '_O0', [os.path.join(C.HARNESS, srcf)], flags=['-std=c++17', '-O0', '-g', '-w'], libs=libs)
+            r = subprocess.run(['valgrind', '--quiet', '--error-exitcode=99', '--track-origins=no', exe] + argv, stdout=subprocess.PIPE, stderr=subprocess.PIPE, timeout=3000)
+            if r.returncode == 99:
+                evs.append({'e': 'Fault', 'harness': 'valgrind ' + name, 'kind': 'memcheck', 'detail': r.stderr.decode(errors='replace')[-600:].encode('ascii', 'replace').decode()})
+            else:
+                evs.append({'e': 'HarnessRun', 'harness': 'valgrind ' + name, 'events': len(r.stdout.splitlines())})
     tool = [e for e in evs if e['e'] == 'ToolError']
     if tool:
         raise C.ToolError('sanitizer build/run failed: ' + json.dumps(tool)[:1500])
